@@ -306,3 +306,15 @@ func (n *Node) Commit() (err error) {
 	_, err = n.App.Commit()
 	return err
 }
+
+// DiscardUncommitted throws away the root store's uncommitted working set by
+// reloading the last committed version (what a crash before Commit amounts to,
+// without rebuilding the application object).
+func (n *Node) DiscardUncommitted() (err error) {
+	defer func() {
+		if r := recover(); r != nil {
+			err = fmt.Errorf("LoadLatestVersion panicked: %v", r)
+		}
+	}()
+	return n.App.CommitMultiStore().LoadLatestVersion()
+}
